@@ -22,6 +22,7 @@ ID = "C15"
 LEVEL = "exploration"
 DESIGN_REF = "5/C15, 4.2"
 TECHNIQUE = "property-based testing over generated schedules: invariant over the execution event log"
+WALL = {"quick": 120, "thorough": 1500}
 RULE = (
     "cases = (workflow program without nested workflows, completion-order choice list, worker in "
     "{sched (order owned by the generator), debug, cf}, number of leading nodes pre-run into the "
@@ -201,5 +202,5 @@ def run(sh):
         return un
 
     # the sequential loop is ~20x cheaper per case than the scheduled runs: give it its own, larger share
-    sh.given(cases(workers=("debug",)), body, sh.budget(320, 6000), tag="debug")
-    sh.given(cases(), body, sh.budget(80, 1600), tag="sched")
+    sh.given(cases(workers=("debug",)), body, sh.budget(240, 6000), tag="debug")
+    sh.given(cases(), body, sh.budget(48, 1600), tag="sched")
